@@ -35,6 +35,51 @@ def build():
         ('with_range', dict(ret='r', props=P, mut_self=True, spec='ensures r.1 == range, r.0 == self.0,')),
         ('range', dict(ret='r', props=P, spec='ensures r == self.1,                 //@C12:range-of-the-diagnostic')),
     ])
+    # validation.rs: the one validator that is plain code (the others are closures over match_ast! / unescape callbacks)
+    U.raw('''/// opaque view of the typed AST as far as validate_timing_literal needs it (trusted: rowan; node ranges lie inside the text, on char boundaries)
+pub mod ast {
+    use vstd::prelude::*;
+    use super::{TextRange, TextSize};
+    #[verifier::external_body] pub struct SyntaxNode { _p: u8 }
+    impl SyntaxNode {
+        pub uninterp spec fn sp_text_range(&self) -> TextRange;
+        #[verifier::external_body] pub fn text_range(&self) -> (r: TextRange) ensures r == self.sp_text_range() { unimplemented!() }
+    }
+    #[verifier::external_body] pub struct TokenText { _p: u8 }
+    impl TokenText {
+        pub uninterp spec fn sp_str(&self) -> Seq<char>;
+        #[verifier::external_body] pub fn as_str(&self) -> (r: &str) ensures r@ == self.sp_str() { unimplemented!() }
+    }
+    #[verifier::external_body] pub struct Identifier { _p: u8 }
+    impl Identifier {
+        #[verifier::external_body] pub fn text(&self) -> (r: TokenText) { unimplemented!() }
+        #[verifier::external_body] pub fn syntax(&self) -> (r: &SyntaxNode) { unimplemented!() }
+    }
+    #[verifier::external_body] pub struct Literal { _p: u8 }
+    impl Literal { #[verifier::external_body] pub fn syntax(&self) -> (r: &SyntaxNode) { unimplemented!() } }
+    #[verifier::external_body] pub struct TimingLiteral { _p: u8 }
+    impl TimingLiteral {
+        pub uninterp spec fn sp_syntax(&self) -> SyntaxNode;
+        pub uninterp spec fn sp_identifier(&self) -> Option<Identifier>;
+        #[verifier::external_body] pub fn syntax(&self) -> (r: &SyntaxNode) ensures *r == self.sp_syntax() { unimplemented!() }
+        #[verifier::external_body] pub fn identifier(&self) -> (r: Option<Identifier>) ensures r == self.sp_identifier() { unimplemented!() }
+        #[verifier::external_body] pub fn literal(&self) -> (r: Option<Literal>) { unimplemented!() }
+    }
+}
+impl TextSize {
+    /// text-size: the UTF-8 length of the text (the conversion to u32 panics beyond u32::MAX)
+    #[verifier::external_body] pub fn of(text: &str) -> (r: TextSize) requires text@.len() <= 0x3fff_ffff { unimplemented!() }
+}
+''', note='ast::{TimingLiteral,Identifier,Literal,SyntaxNode,TokenText} as validate_timing_literal sees them (trusted, rowan)')
+    va = U.file('crates/oq3_syntax/src/validation.rs')
+    va.fn('validate_timing_literal', props=P, spec='''
+requires old(errors)@.len() < usize::MAX, timing_literal.sp_identifier() is Some /* AP: a TIMING_LITERAL is a literal followed by an identifier */,
+ensures
+    // nothing already recorded is touched, and a diagnostic for a bad unit carries the range of the whole timing-literal NODE
+    // (a node range lies inside the text on character boundaries: rowan)
+    final(errors)@.len() >= old(errors)@.len(), final(errors)@.len() <= old(errors)@.len() + 1,
+    forall|k: int| 0 <= k < old(errors)@.len() ==> final(errors)@[k] == old(errors)@[k],
+    forall|k: int| old(errors)@.len() <= k < final(errors)@.len() ==> (#[trigger] final(errors)@[k]).1 == timing_literal.sp_syntax().sp_text_range(),      //@C12:unit-diagnostic-on-the-node''')
     # source_file.rs: the reporting interface hands out the diagnostic's own range
     sf = U.file('crates/oq3_source_file/src/source_file.rs')
     sf.item('trait', 'ErrorTrait')
@@ -84,5 +129,5 @@ ensures
     U.assumed_dep = ['LexedStr::new / errors_is_empty / text_range / to_input, TopEntryPoint::parse: contracts proved in units LEX, SHORT, PARSER, restated over a ghost view',
                      'rowan / text-size: TextRange::new asserts start <= end; TextSize::try_from(usize) fails iff the value exceeds u32',
                      'build_tree (FnMut sink over GreenNodeBuilder): assumed to build a tree that spells the lexed text (unit SHORT proves the steps cover it)']
-    U.not_verified = ['build_tree (closure passed as &mut dyn FnMut)', 'SourceFile::parse / parse_check_lex (Arc, PhantomData, validation::validate)']
+    U.not_verified = ['validation.rs: validate (match_ast! over descendants), validate_literal (unescape callbacks): closures', 'build_tree (closure passed as &mut dyn FnMut)', 'SourceFile::parse / parse_check_lex (Arc, PhantomData, validation::validate)']
     return U
